@@ -32,6 +32,8 @@ RULE = ("cases: (emit) generated universes (multi-namespace, inheritance, attrib
         "within distance 1 of a bound, ill-formed or null/occurrence edge (verdict); distinct = "
         "hash of (shape, value classes, config) resp. (facet, type, relation, position)")
 ASSUMPTIONS = [
+    "types that declare an inclusive and an exclusive bound on the same side (ge and gt) are not "
+    "published in the verdict part: XSD cannot carry both facets in one restriction",
     "empty element content for a member with a declared default is not compared between the "
     "validators (XSD reads it as the default value)",
     "libxml2 is the schema processor",
@@ -254,7 +256,12 @@ def run_shard(shard, rec):
     if shard["part"] == "emit":
         rec.hyp(emit_cases(), lambda case: run_case(case, rec), shard["n"])
     else:
-        strat = c05.cases(rec.tier).map(lambda c: dict(c, part="verdict"))
+        # an inclusive and an exclusive bound on the same side cannot be published (XSD forbids
+        # minInclusive next to minExclusive in one restriction): C05 checks such types, C06 not
+        def one_bound_per_side(c):
+            f = c["ts"].get("f", {})
+            return not (("ge" in f and "gt" in f) or ("le" in f and "lt" in f))
+        strat = c05.cases(rec.tier).filter(one_bound_per_side).map(lambda c: dict(c, part="verdict"))
         rec.hyp(strat, lambda case: run_case(case, rec), shard["n"])
 
 
